@@ -355,4 +355,56 @@ theorem hop_eq_flatMap (mtu : Nat) (l : List Frag)
     have := ih (fun g hg => hok g (by simp [hg]))
     simp only [hop, hr, this, List.flatMap_cons]
 
+/-! ### chains of hops -/
+
+theorem chain_nil (mtus : List Nat) : chain mtus [] = .ok [] := by
+  induction mtus with
+  | nil => rfl
+  | cons m ms ih => simp [chain, hop, ih]
+
+theorem chain_pieces (h : Hdr) (body : List UInt8) (pre : PreG h body)
+    (hdf : mayFragment h.flags = true) :
+    ∀ (mtus : List Nat) (l : List Frag) (bound : Nat), (∀ m ∈ mtus, 28 ≤ m) → Pieces h body l →
+      (∀ f ∈ l, f.1.totalLength ≤ bound) →
+      ∃ l', chain mtus l = .ok l' ∧ Pieces h body l' ∧
+        ∀ f ∈ l', f.1.totalLength ≤ mtus.getLast?.getD bound := by
+  intro mtus
+  induction mtus with
+  | nil => intro l bound _ p hb; exact ⟨l, rfl, p, by simpa using hb⟩
+  | cons m ms ih =>
+    intro l bound hm p _
+    have hpiece : ∀ f ∈ l, ∃ r, fragment f.1 f.2 m = .ok r ∧ Pieces f.1 f.2 r.pieces ∧
+        ∀ g ∈ r.pieces, g.1.totalLength ≤ m := by
+      intro f hf
+      have hflag : mayFragment f.1.flags = true := by
+        rw [(p.fields f hf).2.2.2.2.2.2.2.2, hdf]
+      exact fragment_spec f.1 f.2 m (hm m (by simp)) (p.piece_pre pre f hf) hflag
+    have hhop := hop_eq_flatMap m l (fun f hf => let ⟨r, e, _⟩ := hpiece f hf; ⟨r, e⟩)
+    have p' := p.refine (fun f => match fragment f.1 f.2 m with | .ok r => r.pieces | .error _ => [])
+      (by intro f hf; obtain ⟨r, e, q, _⟩ := hpiece f hf; simp only [e]; exact q)
+    have hb' : ∀ g ∈ l.flatMap (fun f =>
+        match fragment f.1 f.2 m with | .ok r => r.pieces | .error _ => []),
+        g.1.totalLength ≤ m := by
+      intro g hg
+      obtain ⟨f, hf, hgf⟩ := List.mem_flatMap.1 hg
+      obtain ⟨r, e, _, fits⟩ := hpiece f hf
+      simp only [e] at hgf
+      exact fits g hgf
+    obtain ⟨l', e', q, fits⟩ := ih _ m (fun k hk => hm k (by simp [hk])) p' hb'
+    refine ⟨l', by simp only [chain, hhop]; exact e', q, ?_⟩
+    rw [List.getLast?_cons]
+    simpa using fits
+
+theorem chain_df (h : Hdr) (body : List UInt8) (hdf : mayFragment h.flags = false) :
+    ∀ mtus : List Nat, chain mtus [(h, body)] =
+      .ok (if mtus.all (fun m => decide (h.totalLength ≤ m)) then [(h, body)] else []) := by
+  intro mtus
+  induction mtus with
+  | nil => rfl
+  | cons m ms ih =>
+    by_cases hfit : h.totalLength ≤ m
+    · simp [chain, hop, fragment, hfit, Fragments.pieces, ih]
+    · simp [chain, hop, fragment, hfit, hdf, Fragments.pieces, chain_nil]
+
+
 end Elvis.Frag
